@@ -50,7 +50,22 @@ let () =
          let garbage = List.init (int_of_z (mODIFIED_FORMAT_SIZE fx)) (fun _ -> z_of_int 0xbe) in
          (match format_static fx (bytes_of_hex fmt) (z_of_string l) o garbage with
           | FDone b -> pr ("fmt " ^ hex_of_bytes (cstr b))
-          | FOob t -> pr ("oob " ^ string_of_z t))
+          | FOob t -> pr ("oob " ^ string_of_z t));
+         (* the specification and the guard of C13_format_set_text_partial *)
+         pr ("sspec " ^ hex_of_bytes (static_spec (bytes_of_hex fmt) (z_of_string l) o));
+         pr (if static_guard (bytes_of_hex fmt) (z_of_string l) o then "sguard 1" else "sguard 0")
+       | ["M"; l; _; ext; msg] ->
+         (* a whole log call: cs_format into a line buffer of exactly L bytes, then qb_do_extended *)
+         let lz = z_of_string l in
+         let r = bytes_of_hex msg in
+         let garbage = List.init (int_of_z lz) (fun _ -> z_of_int 0x5a) in
+         (match log_call fx r lz (ext <> "0") garbage with
+          | None -> pr "oob 2"
+          | Some None -> pr "dlv 0"
+          | Some (Some t) -> pr ("msg " ^ hex_of_bytes t); pr "dlv 1");
+         (match log_call_spec r lz (ext <> "0") with
+          | None -> pr "mspec none"
+          | Some t -> pr ("mspec " ^ hex_of_bytes t))
        | _ -> ()
      done
    with End_of_file -> ());
